@@ -71,3 +71,64 @@ Theorem merge_only_short : forall (lmin2 lmax2 : R) (st : mstateR) (a b i : N) (
   sqn (ns_pos va -v ns_pos vb) < lmin2 /\ link_ok (ms_faces st) a b = true.
 Proof. exact guard_merge. Qed.
 Print Assumptions merge_only_short.
+
+(* ------------------------------------------------------------------------------------------------------------------
+   The control of refine_mesh (the while loop over the work set), model RefineLoop.v.  The order in which the work set
+   yields its edges and the node slots handed out by the cell store are inputs ("pop script"); the decisions, the
+   counter, the guard of the loop and its exception are computed, and compared pop by pop with the implementation. *)
+From SC Require Import RefineLoop RefineLoopProofs.
+
+(* whatever the order of the pops: the pass is a replay of the operations it lists, each of them satisfied its length
+   predicate (and the link condition) when it fired, only splits and collapses occur, the counter counts them *)
+Theorem refine_loop_is_a_guarded_replay : forall (dynamic : bool) (lmin2 lmax2 : R) (st : mstateR) (script : list pop) (left : nat)
+                                                 (st' : mstateR) (iter : nat) (ops : list op),
+  result_of (refine_loop NumR dynamic lmin2 lmax2 st script left) = Some (st', iter, ops) ->
+  replay NumR dynamic st ops = Some st' /\ guards_ok NumR dynamic lmin2 lmax2 st ops = true /\ iter = length ops /\
+  (forall o, In o ops -> is_split o = true \/ is_merge o = true).
+Proof. exact loop_is_replay. Qed.
+Print Assumptions refine_loop_is_a_guarded_replay.
+
+(* a mesh that already satisfies the length band is left completely unchanged, in any order of the work set, and
+   nothing is thrown *)
+Theorem conforming_mesh_is_a_fixpoint : forall (dynamic : bool) (lmin2 lmax2 : R) (st : mstateR) (script : list pop),
+  in_band lmin2 lmax2 st -> (0 < nb_edges st)%nat ->
+  (forall p, In p script -> edge_exists (ms_faces st) (p_a p) (p_b p) = true /\ exists l, sq_len NumR st (p_a p) (p_b p) = Some l) ->
+  refine_loop NumR dynamic lmin2 lmax2 st script 0 = Returned st 0 [] 0.
+Proof. exact loop_fixpoint. Qed.
+Print Assumptions conforming_mesh_is_a_fixpoint.
+
+(* the failure report of the loop is raised exactly when 4 * collapses = E0 + 2 * splits ... *)
+Theorem instability_report_arithmetic : forall (dynamic : bool) (lmin2 lmax2 : R) (st : mstateR) (script : list pop) (left : nat)
+                                               (st' : mstateR) (iter : nat) (ops : list op),
+  ValidSurface (tris (ms_faces st)) -> refine_loop NumR dynamic lmin2 lmax2 st script left = Threw st' iter ops ->
+  trace_wf dynamic st ops ->
+  (4 * nmerges ops = nb_edges st + 2 * nsplits ops)%nat.
+Proof. exact threw_arith. Qed.
+Print Assumptions instability_report_arithmetic.
+
+(* ... hence never by a pass without collapses, however many splits it performs: the loop's own guard does not bound a
+   cascade of splits (the clause "always returns after a bounded number of operations" is NOT enforced by the guard) *)
+Theorem split_cascade_is_never_reported : forall (dynamic : bool) (lmin2 lmax2 : R) (st : mstateR) (script : list pop) (left : nat)
+                                                 (st' : mstateR) (iter : nat) (ops : list op),
+  ValidSurface (tris (ms_faces st)) -> (0 < nb_edges st)%nat -> trace_wf dynamic st ops -> nmerges ops = 0%nat ->
+  refine_loop NumR dynamic lmin2 lmax2 st script left <> Threw st' iter ops.
+Proof. exact split_cascade_never_throws. Qed.
+Print Assumptions split_cascade_is_never_reported.
+
+(* refutation of a bound that is independent of the geometry: with l_max = 1 fixed, for every n there is a closed mesh
+   (a tetrahedron with one edge of length 2^n) on which the loop performs n operations and returns without a report *)
+Theorem refine_operations_unbounded_refuted : forall n : nat, exists (st : mstateR) (script : list pop),
+  ValidSurface (tris (ms_faces st)) /\
+  exists (st' : mstateR) (ops : list op), refine_loop NumR true 0%R 1%R st script 0 = Returned st' n ops 0 /\ length ops = n.
+Proof. exact unbounded_operations. Qed.
+Print Assumptions refine_operations_unbounded_refuted.
+
+(* the loop can also be left silently with edges still waiting (guard failed with iteration > edge count): only when
+   collapses dominate *)
+Theorem silent_exit_arithmetic : forall (dynamic : bool) (lmin2 lmax2 : R) (st : mstateR) (script : list pop) (left : nat)
+                                        (st' : mstateR) (iter : nat) (ops : list op),
+  ValidSurface (tris (ms_faces st)) -> refine_loop NumR dynamic lmin2 lmax2 st script left = Returned st' iter ops left ->
+  (0 < left)%nat -> trace_wf dynamic st ops ->
+  (nb_edges st + 2 * nsplits ops < 4 * nmerges ops)%nat.
+Proof. exact leftover_arith. Qed.
+Print Assumptions silent_exit_arithmetic.
